@@ -11,7 +11,17 @@ the global RNGs of ``random`` and ``numpy.random`` are seeded from a ctx.seed-de
   of C(n, size) so that the requested number of distinct hyperedges exists and is reachable), scale parameters from
   {0.5, 1, 3}, argument modes: all defaults, corr_target in {0, .5, 1} (correlated default / explicit True),
   correlated=False with corr_target omitted, num_shuffles=3, and the documented-rejected combination
-  correlated=False + corr_target (registered as a trivial case, skipped when it raises ValueError).
+  correlated=False + corr_target (registered as a trivial case, skipped when it raises ValueError).  In these calls
+  ``scale_by_size`` lists its sizes in the same insertion order as ``edges_by_size`` (itself in a random order).
+* scale_free_hypergraph with the two size-keyed dictionaries written in *different* insertion orders: n = 2..8 (sizes
+  1..min(4, n), counts 0..5) and n = 12 (sizes 2..5, counts 0..9), 4 (quick) / 10 (thorough) maps per n over >= 2
+  sizes in a random insertion order with pairwise distinct counts (each count <= C(n, s)//2 for every size s of the
+  map), ``scale_by_size`` with the same keys reversed / rotated / shuffled (never the order of ``edges_by_size``), all
+  admissible argument modes above, every 4th seed.  The count clause is evaluated per key of the request (and a size
+  that was not requested must have no hyperedge), so pairing the two dictionaries by position instead of by key is
+  visible as a wrong number of hyperedges of some size.  (No other generator of this property takes two parallel
+  size-keyed arguments; random_hypergraph's and HOADmodel's single dictionaries are already given in random
+  insertion orders.)
 * HOADmodel: N = 1..8, orders drawn from 0..3 (order <= N), activity vectors all-0, all-1, constant .3/.5, random,
   time in {0, 1, 4, 12} and the default.
 * add_random_edge / add_random_edges, random_shuffle / random_shuffle_all_orders on base hypergraphs: *every*
@@ -275,8 +285,11 @@ def _case_sf(rec, p):
     for e in s["edges"]:
         if _distinct(e):
             per[len(e)] = per.get(len(e), 0) + 1
-    rec.check(all(per.get(k, 0) == c for k, c in m.items()) and len(s["raw"]) == len(s["edges"]), fn,
-              "exactly the requested number of distinct hyperedges per size", p, expected=m, observed=per, replay=p)
+    # per key of the request (whatever the insertion orders of the two dictionaries); a size that was not requested
+    # has requested number 0
+    rec.check(all(per.get(k, 0) == m.get(k, 0) for k in set(m) | set(per)) and len(s["raw"]) == len(s["edges"]), fn,
+              "exactly the requested number of distinct hyperedges per size", p, expected=m,
+              observed=dict(sorted(per.items())), replay=p)
     return any(c > 0 for c in m.values())
 
 
@@ -540,6 +553,37 @@ def _gen_cases(ctx):
                     if rej:
                         p["rejected"] = True
                     add(p)
+    # ---- scale_free_hypergraph, the two size-keyed dictionaries written in different insertion orders: the sizes of
+    #      edges_by_size in a random order with pairwise distinct counts, scale_by_size with the same keys reversed /
+    #      rotated / shuffled (never the same order), so that any pairing of the two by position instead of by key
+    #      changes some size's number of hyperedges.  Every count is <= C(n, s) // 2 (>= 1) for *every* size s of the map.
+    for n in list(range(2, 9)) + [12]:
+        sizes = list(range(1, min(4, n) + 1)) if n <= 8 else [2, 3, 4, 5]
+        for j in range(4 if quick else 10):
+            ks = rng.sample(sizes, 2 if j == 0 else rng.randint(2, len(sizes)))
+            cap = min(min(5 if n <= 8 else 9, max(1, math.comb(n, s) // 2)) for s in ks)
+            ks = ks[:cap + 1]                     # pairwise distinct counts 0..cap must exist (cap >= 1: >= 2 sizes)
+            counts = rng.sample(range(cap + 1), len(ks))
+            m = [[s, c] for s, c in zip(ks, counts)]
+            scale_of = {s: rng.choice([0.5, 1.0, 3.0]) for s in ks}
+            orders = {"reversed": ks[::-1], "rotated": ks[1:] + ks[:1]}
+            sh = list(ks)
+            for _ in range(8):
+                rng.shuffle(sh)
+                if sh != ks:
+                    break
+            orders["shuffled"] = list(sh)
+            seen = []
+            for oname, order in orders.items():
+                if order == ks or order in seen:
+                    continue
+                seen.append(order)
+                sc = [[s, scale_of[s]] for s in order]
+                for name, kw, rej in modes:
+                    if rej:
+                        continue
+                    for sd in seeds[::4]:
+                        add(dict(kind="sf", n=n, map=m, scale=sc, scale_order=oname, mode=name, kw=kw, draw=sd))
     # ---- HOADmodel
     for N in range(1, 9):
         orders_all = [o for o in range(0, 4) if o <= N]
